@@ -565,11 +565,13 @@ matchers and library functions (`IntervalTie.modelPrims`); `tzAware` is the one 
 domain (`unsupported`) or the translated code computes exactly the model's result. -/
 open Edzed.Interval Edzed.Gen.TrIv Edzed.IntervalTie in
 /-- `_match_pattern` = the model's leftmost search and removal of the matched part (start / end / middle) -/
-theorem translated_interval_match_pattern_is_model (tzAware : Bool) (s : List Char) (re : Re) (msg : Option Unit) :
+theorem translated_interval_match_pattern_is_model (tzAware : Bool) (s : List Char) (re : Re)
+    (msg : Option (List Char)) :
     match_pattern (modelPrims tzAware) s re msg =
       match search (matcher re) s with
       | some (s', g) => .ok (s', some g)
-      | none => if msg.isSome then .err .value else .ok (s, none) := match_pattern_eq tzAware s re msg
+      | none => if (match msg with | some v => !v.isEmpty | none => false) then .err .value else .ok (s, none) :=
+  match_pattern_eq tzAware s re msg
 
 open Edzed.Interval Edzed.Gen.TrIv Edzed.IntervalTie in
 /-- `_name_to_month` = the model's `nameToMonth` (first month from index 1 whose name starts with the capitalised text) -/
